@@ -161,7 +161,10 @@ def new_rfile(pos, line_fn, path="<symbolic file>"):
 
 
 def file_method(interp, f, meth, args, kwargs):
-    c = cur().heap[f.sid]
+    c = cur().heap.get(f.sid)
+    if c is None:
+        # e.g. a handle opened inside a summarised loop and used after it: engine limit (UNDECIDED), never a crash
+        raise EngineError("file handle whose cell is not in the current heap (opened inside a summarised loop?)")
     d = c.data
     if meth == "readline":
         if d["mode"] != "r":
